@@ -24,6 +24,8 @@ Operand(id) ==
       [] id = "a1"    -> <<TName("a1")>>
       [] id = "a.1"   -> <<TName("a.1")>>
       [] id = "a-"    -> <<TName("a-")>>
+      [] id = "a-1"   -> <<TName("a-1")>>      \* a hyphen directly followed by a digit stays inside the name (section-2, utf-8)
+      [] id = "a-1b"  -> <<TName("a-1b")>>
       [] id = "p:a.b" -> <<TName("p:a.b")>>
       [] id = "1"     -> <<TNum("1")>>
       [] id = ".5"    -> <<TNum(".5")>>
@@ -51,7 +53,7 @@ Operand(id) ==
 
 OpTok(id) == IF id \in {"or", "and", "div", "mod"} THEN TName(id) ELSE TSym(id)
 \* after a slash only a step may follow
-StepOperands == {"a", "b", "div", "mod", "and", "or", "*", "@a", "..", ".", "ax", "pred", "a.b", "a-b", "a1", "a.1", "a-", "p:a.b"}
+StepOperands == {"a", "b", "div", "mod", "and", "or", "*", "@a", "..", ".", "ax", "pred", "a.b", "a-b", "a1", "a.1", "a-", "a-1", "a-1b", "p:a.b"}
 
 Init == toks = <<>> /\ nops = 0 /\ expectOperand = TRUE
 
@@ -112,7 +114,7 @@ ParserSanity ==
          = "(axis(child,name::a,-) or (axis(child,name::b,-) and axis(child,name::c,-)))"
     /\ P(<<TName("div"), TName("div"), TName("div")>>) = "(axis(child,name::div,-) div axis(child,name::div,-))"
     /\ P(<<TSym("*"), TSym("*"), TSym("*")>>) = "(axis(child,*,-) * axis(child,*,-))"
-    /\ P(<<TSym("-"), TSym("-"), TNum("1")>>) = "num(1)"
+    /\ P(<<TSym("-"), TSym("-"), TNum("1")>>) = "(num(1) * num(1))"
     /\ P(<<TSym("-"), TName("a"), TSym("|"), TName("b")>>) = "((axis(child,name::a,-) | axis(child,name::b,-)) * num(-1))"
     /\ P(<<TSym("//"), TName("a"), TSym("/"), TSym("@"), TName("b")>>)
          = "axis(attribute,name::b,axis(child,name::a,axis(descendant-or-self,node(),root)))"
